@@ -134,7 +134,7 @@ func c18Model(run *ev.Run, layout c18Layout) seqx.Model {
 				// effective expiry of the new session (Redis: TTL is observable)
 				if f.Redis != "" {
 					rn, rdb := world.RedisNameDB(f.Redis)
-					ttl := s.sw.Redis[rn].DB(rdb).TTL(sid)
+					ttl := s.sw.Redis[rn].DB(rdb).TTL(world.RedisKeyFor(s.sw.Redis[rn], rdb, sid))
 					want := time.Duration(0)
 					switch {
 					case f.Abs > 0 && f.Idle > 0:
@@ -179,7 +179,7 @@ func c18Model(run *ev.Run, layout c18Layout) seqx.Model {
 					return
 				}
 				want := "http://" + s.sw.RealmHost(fj) + "/logout"
-				if res.HTTPStatus != 302 || res.Location != want {
+				if !world.IsRedirect(res.HTTPStatus) || res.Location != want {
 					run.Violation("C18 logout-redirects-to-foreign-end-session-endpoint", fmt.Sprintf("logout at filter %s redirects to %q, its own provider's end-session endpoint is %q", fj.Name, res.Location, want), full)
 				}
 			case "probe":
@@ -272,7 +272,7 @@ func c18Model(run *ev.Run, layout c18Layout) seqx.Model {
 					// is the session still present in its store?
 					if f.Redis != "" {
 						rn, rdb := world.RedisNameDB(f.Redis)
-						alive = s.sw.Redis[rn].DB(rdb).Exists(se[0])
+						alive = world.RedisKeyFor(s.sw.Redis[rn], rdb, se[0]) != ""
 					} else {
 						alive = true // memory: not observable without a request; probes do not remove fresh sessions
 					}
